@@ -293,6 +293,30 @@ fn exec_h<H: Hasher<F>>(case: &Case, rep: &mut Report) {
             if verify(&d2, i, &cap, &proof) == Ok(true) {
                 viol(rep, case, "accepted_other_leaf", format!("pos {i} leaf {j}"));
             }
+            // fault: a near leaf - one bit of one element flipped (every element in turn)
+            for e in 0..data[0].len() {
+                use plonky2::field::types::PrimeField64;
+                let x = data[0][e].to_canonical_u64();
+                let start = (sig >> 7) as usize + e * 11;
+                if let Some(bit) = (0..64).map(|k| (start + k) % 64).find(|&b| (x ^ (1u64 << b)) < P) {
+                    let mut d4 = data.clone();
+                    d4[0][e] = F::from_canonical_u64(x ^ (1u64 << bit));
+                    rep.fault("leaf_bitflip");
+                    rep.case(sig ^ hash_str("leaf_bitflip") ^ ((e as u64) << 8 | bit as u64), true);
+                    if verify(&d4, i, &cap, &proof) == Ok(true) {
+                        viol(rep, case, "accepted_near_leaf", format!("pos {i} element {e} bit {bit}"));
+                    }
+                }
+            }
+            // fault: same leaf, a position outside the tree that aliases the real one
+            for m in [1usize, 2, 5] {
+                let j = i + m * n;
+                rep.fault("aliased_position");
+                rep.case(sig ^ hash_str("alias_pos") ^ (m as u64) << 20, true);
+                if verify(&data, j, &cap, &proof) == Ok(true) {
+                    viol(rep, case, "accepted_other_position", format!("leaf {i} at out-of-range pos {j}"));
+                }
+            }
             // fault: same leaf, other position (all positions < n for small trees, else a few)
             let others: Vec<usize> = if n <= 16 { (0..n).filter(|&j| j != i).collect() } else { vec![j, i ^ 1, i ^ (n >> 1), (i + 1) % n] };
             for j in others {
